@@ -58,84 +58,43 @@ Lemma norm_clamp_nonneg n i : 0 <= norm_clamp n i.
 Proof. unfold norm_clamp. destruct (i <? 0) eqn:H; [lia | apply Z.ltb_ge in H; lia]. Qed.
 
 Lemma list_slice_window l start stop :
+  0 <= norm_stop (len l) stop ->
   list_slice l start stop =
-  zfirstn (norm_clamp (len l) stop + 1 - norm_clamp (len l) start)
+  zfirstn (norm_stop (len l) stop + 1 - norm_clamp (len l) start)
           (zskipn (norm_clamp (len l) start) l).
 Proof.
-  unfold list_slice. rewrite slice_loop_window.
+  intros He. unfold list_slice.
+  replace (norm_stop (len l) stop <? 0) with false by (symmetry; apply Z.ltb_ge; lia).
+  rewrite slice_loop_window.
   pose proof (norm_clamp_nonneg (len l) start).
   f_equal; [lia | f_equal; lia].
 Qed.
 
-(** the inputs on which the implementation's normalisation is wrong:
-    a stop below -len is clamped to 0 instead of making the window empty *)
-Definition lrange_known (n start stop : Z) : bool :=
-  (0 <? n) && (stop <? - n) && (norm_clamp n start =? 0).
-
-Lemma list_slice_spec l start stop :
-  lrange_known (len l) start stop = false ->
-  list_slice l start stop = redis_range l start stop.
+(** LRANGE / LTRIM window = the Redis rule, for ALL lists, starts and stops *)
+Lemma list_slice_spec l start stop : list_slice l start stop = redis_range l start stop.
 Proof.
-  intros Hk. rewrite list_slice_window. unfold redis_range, lrange_known in *.
-  pose proof (len_nonneg l) as Hn. set (n := len l) in *.
-  assert (Hs : Z.max (if start <? 0 then n + start else start) 0 = norm_clamp n start).
+  unfold redis_range.
+  pose proof (len_nonneg l) as Hn.
+  assert (Hs : Z.max (if start <? 0 then len l + start else start) 0 = norm_clamp (len l) start).
   { unfold norm_clamp. destruct (start <? 0) eqn:H; [reflexivity | apply Z.ltb_ge in H; lia]. }
-  rewrite Hs. pose proof (norm_clamp_nonneg n start) as Hs0. set (s := norm_clamp n start) in *.
-  unfold norm_clamp at 1.
-  destruct (stop <? 0) eqn:Hstop.
-  - apply Z.ltb_lt in Hstop.
-    destruct (Z.leb_spec 0 (n + stop)) as [Hge | Hlt].
-    + (* stop counts from the tail and lands inside *)
-      rewrite Z.max_l by lia.
-      destruct (n + stop <? s) eqn:H1; cbn [orb].
-      * apply Z.ltb_lt in H1. apply zfirstn_nonpos. lia.
-      * apply Z.ltb_ge in H1. destruct (n <=? s) eqn:H2.
-        { apply Z.leb_le in H2. lia. }
-        apply Z.leb_gt in H2. f_equal. lia.
-    + (* stop below -len *)
-      rewrite Z.max_r by lia.
-      replace (n + stop <? s) with true by (symmetry; apply Z.ltb_lt; lia). cbn [orb].
-      destruct (Z.eq_dec s 0) as [E | NE].
-      * (* s = 0: only possible for the empty list outside the known class *)
-        rewrite E in *. destruct (0 <? n) eqn:Hn0.
-        { exfalso. replace (stop <? - n) with true in Hk by (symmetry; apply Z.ltb_lt; lia).
-          cbn in Hk. discriminate. }
-        apply Z.ltb_ge in Hn0. subst n.
-        destruct l as [|y l']; [reflexivity |].
-        exfalso. rewrite len_cons in Hn0. pose proof (len_nonneg l'). lia.
-      * apply zfirstn_nonpos. lia.
-  - apply Z.ltb_ge in Hstop.
-    destruct (stop <? s) eqn:H1; cbn [orb].
+  rewrite Hs. pose proof (norm_clamp_nonneg (len l) start) as Hs0.
+  change (if stop <? 0 then len l + stop else stop) with (norm_stop (len l) stop).
+  destruct (Z.ltb_spec (norm_stop (len l) stop) 0) as [Hneg | Hpos].
+  - (* stop before the head: nothing *)
+    unfold list_slice. replace (norm_stop (len l) stop <? 0) with true by (symmetry; apply Z.ltb_lt; lia).
+    replace (norm_stop (len l) stop <? norm_clamp (len l) start) with true by (symmetry; apply Z.ltb_lt; lia).
+    reflexivity.
+  - rewrite list_slice_window by exact Hpos.
+    set (n := len l) in *. set (s := norm_clamp n start) in *. set (e := norm_stop n stop) in *.
+    destruct (e <? s) eqn:H1; cbn [orb].
     + apply Z.ltb_lt in H1. apply zfirstn_nonpos. lia.
     + apply Z.ltb_ge in H1. destruct (n <=? s) eqn:H2.
       * apply Z.leb_le in H2. rewrite zskipn_all by (fold n; lia). apply zfirstn_nil.
       * apply Z.leb_gt in H2.
-        destruct (Z.le_gt_cases stop (n - 1)) as [Hin | Hout].
+        destruct (Z.le_gt_cases e (n - 1)) as [Hin | Hout].
         { rewrite Z.min_l by lia. f_equal. lia. }
         rewrite Z.min_r by lia.
         rewrite !zfirstn_all; try reflexivity; rewrite len_zskipn; fold n; lia.
-Qed.
-
-(** exactly what happens inside the known class: the head element is returned / kept,
-    where the reference semantics gives the empty list *)
-Lemma list_slice_known l start stop :
-  lrange_known (len l) start stop = true ->
-  list_slice l start stop = firstn 1 l /\ redis_range l start stop = [] /\ firstn 1 l <> [].
-Proof.
-  intros Hk. unfold lrange_known in Hk.
-  apply andb_prop in Hk. destruct Hk as [Hk H3]. apply andb_prop in Hk. destruct Hk as [H1 H2].
-  apply Z.ltb_lt in H1. apply Z.ltb_lt in H2. apply Z.eqb_eq in H3.
-  split; [|split].
-  - rewrite list_slice_window. rewrite H3.
-    unfold norm_clamp. replace (stop <? 0) with true by (symmetry; apply Z.ltb_lt; lia).
-    rewrite Z.max_r by lia. rewrite zskipn_nonpos by lia. reflexivity.
-  - unfold redis_range.
-    assert (Hs : Z.max (if start <? 0 then len l + start else start) 0 = norm_clamp (len l) start).
-    { unfold norm_clamp. destruct (start <? 0) eqn:H; [reflexivity | apply Z.ltb_ge in H; lia]. }
-    rewrite Hs, H3.
-    replace (stop <? 0) with true by (symmetry; apply Z.ltb_lt; lia).
-    replace (len l + stop <? 0) with true by (symmetry; apply Z.ltb_lt; lia). reflexivity.
-  - destruct l; [unfold len in H1; cbn in H1; lia | discriminate].
 Qed.
 
 (** ------------------------------------------------------------------ *)
@@ -251,11 +210,11 @@ Proof.
         { rewrite occ_cons, Hyx. lia. }
 Qed.
 
-Lemma list_rem_zero x l : list_rem 0 x l = Some (without x l, occ x l).
+Lemma list_rem_zero x l : list_rem 0 x l = (without x l, occ x l).
 Proof. reflexivity. Qed.
 
 Lemma list_rem_pos c x l : 0 < c ->
-  exists r k, list_rem c x l = Some (r, k) /\ k = Z.min c (occ x l) /\ removed_prefix l x k r.
+  exists r k, list_rem c x l = (r, k) /\ k = Z.min c (occ x l) /\ removed_prefix l x k r.
 Proof.
   intros Hc. unfold list_rem.
   replace (c =? 0) with false by (symmetry; apply Z.eqb_neq; lia).
@@ -264,13 +223,13 @@ Proof.
   apply (lrem_fwd_spec x l c); [lia | exact H].
 Qed.
 
-Lemma list_rem_neg c x l : c < 0 -> c <> isize_min ->
-  exists r k, list_rem c x l = Some (r, k) /\ k = Z.min (- c) (occ x l) /\ removed_suffix l x k r.
+(** every negative count, isize::MIN included *)
+Lemma list_rem_neg c x l : c < 0 ->
+  exists r k, list_rem c x l = (r, k) /\ k = Z.min (- c) (occ x l) /\ removed_suffix l x k r.
 Proof.
-  intros Hc Hmin. unfold list_rem.
+  intros Hc. unfold list_rem.
   replace (c =? 0) with false by (symmetry; apply Z.eqb_neq; lia).
   replace (0 <? c) with false by (symmetry; apply Z.ltb_ge; lia).
-  replace (c =? isize_min) with false by (symmetry; apply Z.eqb_neq; lia).
   destruct (lrem_fwd x (- c) (rev l)) as [r k] eqn:H. exists (rev r), k. split; [reflexivity|].
   destruct (lrem_fwd_spec x (rev l) (- c) r k) as [Hk (p & s & Hl & Hr & Hp)]; [lia | exact H |].
   rewrite occ_rev in Hk. split; [exact Hk|].
@@ -281,21 +240,16 @@ Proof.
 Qed.
 
 (** the mirror law: a negative count is the positive count on the reversed list *)
-Lemma list_rem_mirror c x l : c < 0 -> c <> isize_min ->
-  list_rem c x l =
-  match list_rem (- c) x (rev l) with Some (r, k) => Some (rev r, k) | None => None end.
+Lemma list_rem_mirror c x l : c < 0 ->
+  list_rem c x l = match list_rem (- c) x (rev l) with (r, k) => (rev r, k) end.
 Proof.
-  intros Hc Hmin. unfold list_rem.
+  intros Hc. unfold list_rem.
   replace (c =? 0) with false by (symmetry; apply Z.eqb_neq; lia).
   replace (0 <? c) with false by (symmetry; apply Z.ltb_ge; lia).
-  replace (c =? isize_min) with false by (symmetry; apply Z.eqb_neq; lia).
   replace (- c =? 0) with false by (symmetry; apply Z.eqb_neq; lia).
   replace (0 <? - c) with true by (symmetry; apply Z.ltb_lt; lia).
   destruct (lrem_fwd x (- c) (rev l)); reflexivity.
 Qed.
-
-Lemma list_rem_min x l : list_rem isize_min x l = None.
-Proof. reflexivity. Qed.
 
 (** ------------------------------------------------------------------ *)
 (** * membership / association-list facts *)
@@ -578,7 +532,7 @@ Proof.
 Qed.
 Lemma wf_lrem c x : wf_e (e_lrem c x).
 Proof.
-  unfold wf_e, e_lrem. start_wf. destruct (list_rem c x l) as [[[|y r] k]|]; red_reply; try exact I.
+  unfold wf_e, e_lrem. start_wf. destruct (list_rem c x l) as [[|y r] k]; red_reply; try exact I.
   cbn [wf_value]. discriminate.
 Qed.
 Lemma wf_sadd ms : ms <> [] -> wf_e (e_sadd ms).
@@ -980,7 +934,6 @@ Proof.
       apply pick_distinct_ok_spec in Hok. destruct Hok as (A & B & C).
       exists xs. inversion H; subst. auto.
     + destruct (n =? i64_min); [inversion H; subst; discriminate|].
-      destruct (isize_max <? 24 * - n); [inversion H; subst; discriminate|].
       destruct (oracle_bulks o) as [xs|]; [|inversion H; subst; discriminate].
       destruct (pick_repeat_ok (m0 :: s0) (- n) xs) eqn:Hok; [|inversion H; subst; discriminate].
       apply pick_repeat_ok_spec in Hok. destruct Hok as (A & C).
@@ -1002,20 +955,21 @@ Proof.
     by (symmetry; apply pick_distinct_ok_spec; auto).
   reflexivity.
 Qed.
-(** negative counts the model follows: above i64::MIN and small enough for Vec::with_capacity *)
-Definition srand_neg_ok (n : Z) : bool := (n <? 0) && negb (n =? i64_min) && negb (isize_max <? 24 * - n).
+(** every negative count above i64::MIN is followed; i64::MIN is refused ("value is out of range") *)
 Lemma srandmember_follows_neg n s xs :
-  s <> [] -> srand_neg_ok n = true -> len xs = - n -> incl xs s ->
+  s <> [] -> n < 0 -> n <> i64_min -> len xs = - n -> incl xs s ->
   e_srandmember (Some n) (Some (FArray (map FBulk xs))) (Some (VSet s)) = (r_bulks (bsort xs), Keep).
 Proof.
-  intros Hne Hn A C. unfold e_srandmember. destruct s as [|m0 s0]; [congruence|].
-  unfold srand_neg_ok in Hn. apply andb_prop in Hn. destruct Hn as [Hn H3]. apply andb_prop in Hn.
-  destruct Hn as [H1 H2]. apply Z.ltb_lt in H1. apply negb_true_iff in H2. apply negb_true_iff in H3.
+  intros Hne Hn Hmin A C. unfold e_srandmember. destruct s as [|m0 s0]; [congruence|].
   replace (0 <=? n) with false by (symmetry; apply Z.leb_gt; lia).
-  rewrite H2, H3. cbn [oracle_bulks]. rewrite all_bulks_map.
+  replace (n =? i64_min) with false by (symmetry; apply Z.eqb_neq; exact Hmin).
+  cbn [oracle_bulks]. rewrite all_bulks_map.
   replace (pick_repeat_ok (m0 :: s0) (- n) xs) with true by (symmetry; apply pick_repeat_ok_spec; auto).
   reflexivity.
 Qed.
+Lemma srandmember_min_refused o s : s <> [] ->
+  e_srandmember (Some i64_min) o (Some (VSet s)) = (r_err, Keep).
+Proof. intros Hne. unfold e_srandmember. destruct s; [congruence | reflexivity]. Qed.
 
 (** ------------------------------------------------------------------ *)
 (** * set algebra *)
@@ -1090,7 +1044,8 @@ Proof.
       * intros [[I1 I2] He]. split; [exact I1|]. intros k' [E | Hin]; [subst k'; exists s; tauto | apply He; exact Hin].
       * intros [I He]. split; [split; [exact I|] | intros k' Hin; apply He; right; exact Hin].
         destruct (He k (or_introl eq_refl)) as (s' & Hs & Him). congruence.
-    + exists []. split; [reflexivity | split; [constructor|]]. intros m. split; [intros []|].
+    + destruct (IH [] (NoDup_nil _) Ht) as (r & Hr & Hn & Hm).
+      exists r. split; [exact Hr | split; [exact Hn|]]. intros m. rewrite Hm. split; [intros [[] _]|].
       intros [_ He]. destruct (He k (or_introl eq_refl)) as (s' & Hs & Him).
       rewrite Hsk in Hs. inversion Hs; subst. destruct Him.
 Qed.
@@ -1140,7 +1095,8 @@ Proof.
     + intros [I He] k' [E | Hin]; [subst k'; exists s; tauto | apply He; exact Hin].
     + intros He. split; [|intros k' Hin; apply He; right; exact Hin].
       destruct (He k (or_introl eq_refl)) as (s' & Hs & Him). congruence.
-  - exists []. split; [reflexivity | split; [constructor|]]. intros m. split; [intros []|].
+  - destruct (sinter_loop_spec d ks [] (NoDup_nil _) Ht) as (r & Hr & Hn & Hm).
+    exists r. split; [exact Hr | split; [exact Hn|]]. intros m. rewrite Hm. split; [intros [[] _]|].
     intros He. destruct (He k (or_introl eq_refl)) as (s' & Hs & Him).
     rewrite Hsk in Hs. inversion Hs; subst. destruct Him.
 Qed.
@@ -1156,7 +1112,8 @@ Proof.
     exists r. split; [exact Hr | split; [exact Hn|]]. intros m. rewrite Hm. split.
     + intros [I He]. split; [exists k, s; cbn; tauto | exact He].
     + intros [(k' & s' & [E | []] & Hs & Him) He]. subst k'. split; [congruence | exact He].
-  - exists []. split; [reflexivity | split; [constructor|]]. intros m. split; [intros []|].
+  - destruct (sdiff_loop_spec d ks [] (NoDup_nil _) Ht) as (r & Hr & Hn & Hm).
+    exists r. split; [exact Hr | split; [exact Hn|]]. intros m. rewrite Hm. split; [intros [[] _]|].
     intros [(k' & s' & [E | []] & Hs & Him) _]. subst k'. rewrite Hsk in Hs. inversion Hs; subst. destruct Him.
 Qed.
 
@@ -1173,17 +1130,15 @@ Qed.
 Lemma sunion_wrong d keys : (exists k, In k keys /\ set_at d k = None) -> eng_sunion d keys = SWrong.
 Proof. apply sunion_loop_wrong. Qed.
 
-(** SINTER / SDIFF refuse a key of another type when no key is missing *)
-Definition none_missing (d : db) (keys : list bytes) : Prop := forall k, In k keys -> get_val d k <> None.
-Lemma sinter_loop_wrong d keys : forall acc, none_missing d keys ->
+(** SINTER / SDIFF refuse a key of another type wherever it stands (every key is looked at) *)
+Lemma sinter_loop_wrong d keys : forall acc,
   (exists k, In k keys /\ set_at d k = None) -> sinter_loop d keys acc = SWrong.
 Proof.
-  induction keys as [|k ks IH]; intros acc Hm (k0 & Hin & Hs); [destruct Hin|].
+  induction keys as [|k ks IH]; intros acc (k0 & Hin & Hs); [destruct Hin|].
   cbn [sinter_loop]. pose proof (set_at_get_val d k) as Hsk.
-  pose proof (Hm k (or_introl eq_refl)) as Hk.
-  destruct (get_val d k) as [[ | |s| | | ]|]; try reflexivity; try congruence.
-  apply IH; [intros k' Hk'; apply Hm; right; exact Hk'|].
-  destruct Hin as [E | Hin]; [subst; congruence | exists k0; tauto].
+  destruct (get_val d k) as [[ | |s| | | ]|]; try reflexivity.
+  - apply IH. destruct Hin as [E | Hin]; [subst; congruence | exists k0; tauto].
+  - apply IH. destruct Hin as [E | Hin]; [subst; congruence | exists k0; tauto].
 Qed.
 Lemma sdiff_loop_wrong d keys : forall acc,
   (exists k, In k keys /\ set_at d k = None) -> sdiff_loop d keys acc = SWrong.
@@ -1194,22 +1149,19 @@ Proof.
   - apply IH. destruct Hin as [E | Hin]; [subst; congruence | exists k0; tauto].
   - apply IH. destruct Hin as [E | Hin]; [subst; congruence | exists k0; tauto].
 Qed.
-Lemma sinter_wrong d keys : none_missing d keys ->
-  (exists k, In k keys /\ set_at d k = None) -> eng_sinter d keys = SWrong.
+Lemma sinter_wrong d keys : (exists k, In k keys /\ set_at d k = None) -> eng_sinter d keys = SWrong.
 Proof.
-  intros Hm (k0 & Hin & Hs). destruct keys as [|k ks]; [destruct Hin|]. unfold eng_sinter.
-  pose proof (set_at_get_val d k) as Hsk. pose proof (Hm k (or_introl eq_refl)) as Hk.
-  destruct (get_val d k) as [[ | |s| | | ]|]; try reflexivity; try congruence.
-  apply sinter_loop_wrong; [intros k' Hk'; apply Hm; right; exact Hk'|].
-  destruct Hin as [E | Hin]; [subst; congruence | exists k0; tauto].
+  intros (k0 & Hin & Hs). destruct keys as [|k ks]; [destruct Hin|]. unfold eng_sinter.
+  pose proof (set_at_get_val d k) as Hsk.
+  destruct (get_val d k) as [[ | |s| | | ]|]; try reflexivity;
+    (apply sinter_loop_wrong; destruct Hin as [E | Hin]; [subst; congruence | exists k0; tauto]).
 Qed.
-(** SDIFF needs only the FIRST key to exist *)
-Lemma sdiff_wrong d k ks : get_val d k <> None ->
-  (exists k0, In k0 (k :: ks) /\ set_at d k0 = None) -> eng_sdiff d (k :: ks) = SWrong.
+Lemma sdiff_wrong d keys : (exists k, In k keys /\ set_at d k = None) -> eng_sdiff d keys = SWrong.
 Proof.
-  intros Hk (k0 & Hin & Hs). unfold eng_sdiff. pose proof (set_at_get_val d k) as Hsk.
-  destruct (get_val d k) as [[ | |s| | | ]|]; try reflexivity; try congruence.
-  apply sdiff_loop_wrong. destruct Hin as [E | Hin]; [subst; congruence | exists k0; tauto].
+  intros (k0 & Hin & Hs). destruct keys as [|k ks]; [destruct Hin|]. unfold eng_sdiff.
+  pose proof (set_at_get_val d k) as Hsk.
+  destruct (get_val d k) as [[ | |s| | | ]|]; try reflexivity;
+    (apply sdiff_loop_wrong; destruct Hin as [E | Hin]; [subst; congruence | exists k0; tauto]).
 Qed.
 
 (** ------------------------------------------------------------------ *)
@@ -1307,29 +1259,27 @@ Qed.
 (** * LRANGE / LTRIM at the level of the engine functions; whole-list read *)
 
 Lemma lrange_reply_spec l start stop :
-  lrange_known (len l) start stop = false ->
   e_lrange start stop (Some (VList l)) = (r_bulks (redis_range l start stop), Keep).
-Proof. intros H. unfold e_lrange. rewrite list_slice_spec by exact H. reflexivity. Qed.
+Proof. unfold e_lrange. rewrite list_slice_spec. reflexivity. Qed.
 Lemma ltrim_spec l start stop :
-  lrange_known (len l) start stop = false ->
   e_ltrim start stop (Some (VList l)) =
   (r_ok, match redis_range l start stop with [] => Del | l' => Put (VList l') end).
-Proof. intros H. unfold e_ltrim. rewrite list_slice_spec by exact H. destruct (redis_range l start stop); reflexivity. Qed.
+Proof. unfold e_ltrim. rewrite list_slice_spec. destruct (redis_range l start stop); reflexivity. Qed.
 
 (** LRANGE k 0 -1 (the read the dumps use) returns the whole list, in order *)
 Lemma list_slice_all l : list_slice l 0 (-1) = l.
 Proof.
-  rewrite list_slice_window. pose proof (len_nonneg l) as Hn.
-  unfold norm_clamp. cbn [Z.ltb Z.compare].
-  change (0 <? 0) with false. change (-1 <? 0) with true. cbv iota.
-  rewrite zskipn_nonpos by lia.
+  pose proof (len_nonneg l) as Hn.
   destruct (Z.eq_dec (len l) 0) as [E | NE].
   - destruct l; [reflexivity | rewrite len_cons in E; pose proof (len_nonneg l); lia].
-  - rewrite Z.max_l by lia. apply zfirstn_all. lia.
+  - assert (Hs : norm_stop (len l) (-1) = len l - 1) by (unfold norm_stop; change (-1 <? 0) with true; cbv iota; lia).
+    rewrite list_slice_window by lia. rewrite Hs.
+    unfold norm_clamp. change (0 <? 0) with false. cbv iota.
+    rewrite zskipn_nonpos by lia. apply zfirstn_all. lia.
 Qed.
 
 (** ------------------------------------------------------------------ *)
-(** * which commands can panic, and exactly when *)
+(** * no command of the family reaches a panicking operation *)
 
 Definition panics (r : frame) : bool := match r with FError m => beq m (bs "PANIC") | _ => false end.
 Definition nopanic_e (f : option value -> frame * upd) : Prop := forall cur, panics (fst (f cur)) = false.
@@ -1398,21 +1348,25 @@ Proof. intros d parts. unfold h_hset. go_nopanic. apply nopanic_hset. Qed.
 Lemma nopanic_h_hmget : nopanic_h h_hmget.
 Proof. intros d parts. unfold h_hmget. go_nopanic. apply nopanic_hmget. Qed.
 
-(** only LREM, SRANDMEMBER and HINCRBY can make the server panic ... *)
-Lemma exec_lists_panic_names now d name parts o r d' :
-  exec_lists now d name parts o = Some (r, d') -> panics r = true ->
-  name = bs "LREM" \/ name = bs "SRANDMEMBER" \/ name = bs "HINCRBY".
+Lemma nopanic_lrem c x : nopanic_e (e_lrem c x). Proof. unfold nopanic_e, e_lrem. solve_nopanic. Qed.
+Lemma nopanic_srandmember c o : nopanic_e (e_srandmember c o). Proof. unfold nopanic_e, e_srandmember. solve_nopanic. Qed.
+Lemma nopanic_hincrby f inc : nopanic_e (e_hincrby f inc). Proof. unfold nopanic_e, e_hincrby. solve_nopanic. Qed.
+Lemma nopanic_h_srandmember o : nopanic_h (fun d parts => h_srandmember d parts o).
+Proof. intros d parts. unfold h_srandmember. go_nopanic; apply nopanic_srandmember. Qed.
+Lemma nopanic_h_hincrby : nopanic_h h_hincrby.
+Proof. intros d parts. unfold h_hincrby. go_nopanic. apply nopanic_hincrby. Qed.
+
+(** no command, database, argument list or oracle makes the model take the PANIC outcome *)
+Lemma exec_lists_no_panic now d name parts o r d' :
+  exec_lists now d name parts o = Some (r, d') -> panics r = false.
 Proof.
-  unfold exec_lists. intros H Hp.
+  unfold exec_lists. intros H.
   repeat match type of H with
-  | (if beq ?a ?b then _ else _) = _ => destruct (beq a b) eqn:?
+  | (if beq ?a ?b then _ else _) = _ => destruct (beq a b)
   end; try discriminate;
-  try (match goal with E : beq name (bs "LREM") = true |- _ => apply beq_eq in E; auto end);
-  try (match goal with E : beq name (bs "SRANDMEMBER") = true |- _ => apply beq_eq in E; auto end);
-  try (match goal with E : beq name (bs "HINCRBY") = true |- _ => apply beq_eq in E; auto end);
-  exfalso; inversion H as [H1]; clear H;
+  inversion H as [H1]; clear H;
   match type of H1 with ?lhs = _ => assert (Hn : panics (fst lhs) = false) end;
-  try (rewrite H1 in Hn; cbn [fst] in Hn; congruence).
+  try (rewrite H1 in Hn; cbn [fst] in Hn; exact Hn).
   - apply nopanic_h_push.
   - apply nopanic_h_push.
   - apply nopanic_h_key1, nopanic_pop.
@@ -1422,6 +1376,7 @@ Proof.
   - apply nopanic_h_lindex.
   - apply nopanic_h_int_bulk, nopanic_lset.
   - apply nopanic_h_range, nopanic_ltrim.
+  - apply nopanic_h_int_bulk, nopanic_lrem.
   - apply nopanic_h_sadd.
   - apply nopanic_h_skipping, nopanic_srem.
   - apply nopanic_h_key1, nopanic_smembers.
@@ -1430,6 +1385,7 @@ Proof.
   - apply nopanic_h_setalg.
   - apply nopanic_h_setalg.
   - apply nopanic_h_setalg.
+  - apply (nopanic_h_srandmember o).
   - apply (nopanic_h_spop o).
   - apply nopanic_h_hset.
   - apply nopanic_h_hset.
@@ -1441,68 +1397,40 @@ Proof.
   - apply nopanic_h_key_bulk, nopanic_hexists.
   - apply nopanic_h_key1, nopanic_hkeys.
   - apply nopanic_h_key1, nopanic_hvals.
+  - apply nopanic_h_hincrby.
 Qed.
 
-(** ... and exactly on these inputs *)
-Lemma lrem_panics_iff c x cur :
-  panics (fst (e_lrem c x cur)) = true <-> (exists l, cur = Some (VList l)) /\ c = isize_min.
-Proof.
-  unfold e_lrem. destruct cur as [[ | l| | | | ]|]; red_reply;
-    try (split; [discriminate | intros [[l0 E] _]; discriminate]).
-  unfold list_rem.
-  destruct (c =? 0) eqn:E0; [|destruct (0 <? c) eqn:E1; [|destruct (c =? isize_min) eqn:E2]].
-  - red_reply. apply Z.eqb_eq in E0. split; [discriminate | intros [_ E]; subst; discriminate].
-  - destruct (lrem_fwd x c l). red_reply. apply Z.ltb_lt in E1.
-    split; [discriminate | intros [_ E]; subst; unfold isize_min, i64_min in E1; lia].
-  - red_reply. apply Z.eqb_eq in E2. split; [intros _; split; [exists l; reflexivity | exact E2] | reflexivity].
-  - destruct (lrem_fwd x (- c) (rev l)). red_reply. apply Z.eqb_neq in E2.
-    split; [discriminate | intros [_ E]; congruence].
-Qed.
+(** the three formerly panicking inputs, for ALL arguments: *)
+(** LREM with any negative count, isize::MIN included, answers an integer *)
+Lemma lrem_total c x l : exists l' k, list_rem c x l = (l', k) /\
+  e_lrem c x (Some (VList l)) = (r_int k, match l' with [] => Del | _ => Put (VList l') end).
+Proof. unfold e_lrem. destruct (list_rem c x l) as [l' k]. exists l', k. split; reflexivity. Qed.
+
+(** HINCRBY: inside the i64 range the sum is answered and stored as decimal text (and reads
+    back as that integer); outside it the command is refused and nothing changes *)
 Definition hincrby_overflows (h : list (bytes * bytes)) (f : bytes) (inc : Z) : bool :=
   match alookup f h with
   | Some v => match parse_i64 v with Some c => negb (in_i64 (c + inc)) | None => false end
   | None => false
   end.
-Lemma hincrby_panics_hash f inc h :
-  panics (fst (e_hincrby f inc (Some (VHash h)))) = hincrby_overflows h f inc.
+Lemma hincrby_overflow_refused h f inc :
+  hincrby_overflows h f inc = true -> e_hincrby f inc (Some (VHash h)) = (r_err, Keep).
 Proof.
-  unfold e_hincrby, hincrby_overflows.
-  destruct (alookup f h) as [v|]; [destruct (parse_i64 v) as [c|]; [destruct (in_i64 (c + inc))|]|]; reflexivity.
+  unfold hincrby_overflows, e_hincrby. destruct (alookup f h) as [v|]; [|discriminate].
+  destruct (parse_i64 v) as [c|]; [|discriminate]. destruct (in_i64 (c + inc)); [discriminate | reflexivity].
 Qed.
-Lemma hincrby_panics_iff f inc cur :
-  panics (fst (e_hincrby f inc cur)) = true <->
-  exists h, cur = Some (VHash h) /\ hincrby_overflows h f inc = true.
+Lemma hincrby_in_range h f inc v c :
+  alookup f h = Some v -> parse_i64 v = Some c -> in_i64 (c + inc) = true ->
+  exists h', e_hincrby f inc (Some (VHash h)) = (r_int (c + inc), Put (VHash h')) /\
+             (exists v', alookup f h' = Some v' /\ parse_i64 v' = Some (c + inc)) /\
+             forall g, g <> f -> alookup g h' = alookup g h.
 Proof.
-  destruct cur as [[ | | |h| | ]|];
-    try (split; [cbn; discriminate | intros [h0 [E _]]; discriminate]).
-  rewrite hincrby_panics_hash. split; [intros H; exists h; auto | intros [h0 [E H]]; inversion E; subst; exact H].
-Qed.
-Lemma srandmember_panics_iff count o cur :
-  panics (fst (e_srandmember count o cur)) = true <->
-  exists s n, cur = Some (VSet s) /\ s <> [] /\ count = Some n /\ n < 0 /\ srand_neg_ok n = false.
-Proof.
-  destruct cur as [[ | |s| | | ]|];
-    try (split; [cbn; try destruct count; discriminate | intros (sx & nx & E & _); discriminate]).
-  destruct s as [|m0 s0].
-  { split; [cbn; destruct count; discriminate | intros (s1 & n & E & Hne & _); inversion E; subst; congruence]. }
-  unfold e_srandmember. destruct count as [n|].
-  - destruct (0 <=? n) eqn:Hn.
-    + apply Z.leb_le in Hn. split.
-      * destruct (oracle_bulks o) as [xs|]; [destruct (pick_distinct_ok (m0 :: s0) (Z.min n (len (m0 :: s0))) xs)|]; cbn; discriminate.
-      * intros (s1 & n1 & E & _ & En & Hneg & _). inversion En; subst. lia.
-    + apply Z.leb_gt in Hn.
-      destruct (n =? i64_min) eqn:E1.
-      * split; [intros _; exists (m0 :: s0), n; split; [reflexivity | split; [discriminate | split; [reflexivity | split; [lia | unfold srand_neg_ok; rewrite E1; destruct (n <? 0); reflexivity]]]] | reflexivity].
-      * destruct (isize_max <? 24 * - n) eqn:E2.
-        { split; [intros _; exists (m0 :: s0), n; split; [reflexivity | split; [discriminate | split; [reflexivity | split; [lia | unfold srand_neg_ok; rewrite E1, E2; destruct (n <? 0); reflexivity]]]] | reflexivity]. }
-        split.
-        { destruct (oracle_bulks o) as [xs|]; [destruct (pick_repeat_ok (m0 :: s0) (- n) xs)|]; cbn; discriminate. }
-        intros (s1 & n1 & E & _ & En & _ & Hbad). inversion En; subst n1.
-        unfold srand_neg_ok in Hbad. replace (n <? 0) with true in Hbad by (symmetry; apply Z.ltb_lt; lia).
-        rewrite E1, E2 in Hbad. discriminate.
-  - split.
-    + destruct (oracle_bulk o) as [xs|]; [destruct (pick_distinct_ok (m0 :: s0) 1 xs); [destruct xs|]|]; cbn; discriminate.
-    + intros (s1 & n1 & _ & _ & En & _). discriminate.
+  intros Ha Hp Hi. unfold e_hincrby. rewrite Ha, Hp, Hi.
+  exists (aset f (print_int (c + inc)) h). split; [reflexivity | split].
+  - exists (print_int (c + inc)). rewrite alookup_aset, beq_refl. split; [reflexivity|].
+    apply parse_i64_print. exact Hi.
+  - intros g Hg. rewrite alookup_aset. replace (beq g f) with false; [reflexivity|].
+    symmetry. apply beq_false. exact Hg.
 Qed.
 
 (** ------------------------------------------------------------------ *)
@@ -1539,22 +1467,31 @@ Qed.
 Lemma srandmember_every_choice n s xs : s <> [] -> incl xs s ->
   (0 <= n -> len xs = Z.min n (len s) -> NoDup xs ->
    e_srandmember (Some n) (Some (FArray (map FBulk xs))) (Some (VSet s)) = (r_bulks (bsort xs), Keep)) /\
-  (srand_neg_ok n = true -> len xs = - n ->
+  (n < 0 -> n <> i64_min -> len xs = - n ->
    e_srandmember (Some n) (Some (FArray (map FBulk xs))) (Some (VSet s)) = (r_bulks (bsort xs), Keep)).
 Proof.
   intros Hne Hin. split.
   - intros. apply srandmember_follows_pos; assumption.
   - intros. apply srandmember_follows_neg; assumption.
 Qed.
-Definition hset_fresh_dup (ps : list (bytes * bytes)) : bool := negb (nodupb (map fst ps)).
-Lemma hset_count_fresh ps : hset_fresh_dup ps = false -> len (fst (hset_loop [] ps 0)) = len ps.
+
+(** HSET / HMSET on a fresh key: the count answered is the number of fields created *)
+Lemma hset_fresh_count ps :
+  exists h', e_hset false ps None = (r_int (len h'), Put (VHash h')) /\
+             h' = fst (hset_loop [] ps 0) /\ snd (hset_loop [] ps 0) = len h'.
 Proof.
-  intros H. unfold hset_fresh_dup in H. apply Bool.negb_false_iff in H. apply nodupb_NoDup in H.
-  rewrite hset_loop_fresh_len; [reflexivity | constructor | exact H | intros f _ []].
+  unfold e_hset. destruct (hset_loop [] ps 0) as [h' a] eqn:H. exists h'.
+  split; [reflexivity | split; [reflexivity|]]. cbn [snd].
+  pose proof (hset_loop_count ps [] 0 h' a (NoDup_nil _) H) as C. unfold len in C at 2. cbn [length Z.of_nat] in C. lia.
+Qed.
+(** ... which is the number of pairs exactly when no field repeats in the command *)
+Lemma hset_count_fresh_nodup ps : NoDup (map fst ps) -> len (fst (hset_loop [] ps 0)) = len ps.
+Proof.
+  intros H. rewrite hset_loop_fresh_len; [reflexivity | constructor | exact H | intros f _ []].
 Qed.
 
 (** ------------------------------------------------------------------ *)
-(** * concrete histories (witnesses, non-vacuity) *)
+(** * concrete histories (regression witnesses of the repaired defects, non-vacuity) *)
 
 Definition cmdf (l : list String.string) : list frame := map (fun s => FBulk (bs s)) l.
 Definition cmd_name (parts : list frame) : bytes :=
@@ -1572,65 +1509,39 @@ Definition replies (cs : list (list String.string)) : list frame := fst (play em
 Definition b (s : String.string) : frame := FBulk (bs s).
 Local Open Scope string_scope.
 
-(** F-03a: a stop below -len is clamped to the head instead of emptying the window *)
-Lemma lrange_refuted : exists l start stop,
-  lrange_known (len l) start stop = true /\ list_slice l start stop <> redis_range l start stop.
-Proof. exists [bs "a"; bs "b"; bs "c"], 0, (-100). split; [reflexivity | vm_compute; discriminate]. Qed.
-Lemma lrange_refuted_history :
-  replies [["RPUSH"; "l"; "a"; "b"; "c"]; ["LRANGE"; "l"; "0"; "-100"]; ["LRANGE"; "l"; "-100"; "-50"]]
-  = [FInt 3; FArray [b "a"]; FArray [b "a"]].
+(** 2b792ef (was F-03a): a stop before the head selects / keeps nothing; LTRIM removes the key *)
+Lemma lrange_fixed_history :
+  replies [["RPUSH"; "l"; "a"; "b"; "c"]; ["LRANGE"; "l"; "0"; "-100"]; ["LRANGE"; "l"; "-100"; "-50"];
+           ["LTRIM"; "l"; "0"; "-100"]; ["LRANGE"; "l"; "0"; "-1"]; ["LLEN"; "l"]]
+  = [FInt 3; FArray []; FArray []; r_ok; FArray []; FInt 0].
 Proof. vm_compute. reflexivity. Qed.
-Lemma ltrim_refuted_history :
-  replies [["RPUSH"; "l"; "a"; "b"; "c"]; ["LTRIM"; "l"; "0"; "-100"]; ["LRANGE"; "l"; "0"; "-1"]]
-  = [FInt 3; r_ok; FArray [b "a"]].
+(** 61742d6 (was F-03b) *)
+Lemma hset_fresh_fixed_history :
+  replies [["HSET"; "hh"; "f"; "1"; "f"; "2"]; ["HLEN"; "hh"]; ["HGET"; "hh"; "f"]] = [FInt 1; FInt 1; b "2"].
 Proof. vm_compute. reflexivity. Qed.
-
-(** F-03b: HSET on a fresh key counts pairs, not fields *)
-Lemma hset_fresh_refuted : exists ps,
-  hset_fresh_dup ps = true /\
-  exists n h, e_hset false ps None = (FInt n, Put (VHash h)) /\ n <> len h.
-Proof.
-  exists [(bs "f", bs "1"); (bs "f", bs "2")]. split; [reflexivity|].
-  exists 2, [(bs "f", bs "2")]. split; [reflexivity | vm_compute; discriminate].
-Qed.
-Lemma hset_fresh_refuted_history :
-  replies [["HSET"; "hh"; "f"; "1"; "f"; "2"]; ["HLEN"; "hh"]] = [FInt 2; FInt 1].
+(** c5f1b6a (was F-06e) *)
+Lemma hincrby_fixed_history :
+  replies [["HSET"; "h"; "n"; "9223372036854775807"]; ["HINCRBY"; "h"; "n"; "1"]; ["HGET"; "h"; "n"];
+           ["HINCRBY"; "h"; "n"; "-1"]]
+  = [FInt 1; r_err; b "9223372036854775807"; FInt 9223372036854775806].
 Proof. vm_compute. reflexivity. Qed.
-
-(** F-06e / F-06g / F-06h: arithmetic panics *)
-Lemma hincrby_overflow_panics h f inc :
-  hincrby_overflows h f inc = true -> e_hincrby f inc (Some (VHash h)) = (PANIC, Keep).
-Proof.
-  unfold hincrby_overflows, e_hincrby. destruct (alookup f h) as [v|]; [|discriminate].
-  destruct (parse_i64 v) as [c|]; [|discriminate]. destruct (in_i64 (c + inc)); [discriminate | reflexivity].
-Qed.
-Lemma hincrby_refuted_history :
-  replies [["HSET"; "h"; "n"; "9223372036854775807"]; ["HINCRBY"; "h"; "n"; "1"]] = [FInt 1; PANIC].
+(** 6f35e51 (was F-06g) *)
+Lemma lrem_min_fixed_history :
+  replies [["RPUSH"; "l"; "a"; "b"; "a"]; ["LREM"; "l"; "-9223372036854775808"; "a"]; ["LRANGE"; "l"; "0"; "-1"]]
+  = [FInt 3; FInt 2; FArray [b "b"]].
 Proof. vm_compute. reflexivity. Qed.
-Lemma lrem_min_panics x l : e_lrem isize_min x (Some (VList l)) = (PANIC, Keep).
-Proof. reflexivity. Qed.
-Lemma lrem_refuted_history :
-  replies [["RPUSH"; "l"; "a"]; ["LREM"; "l"; "-9223372036854775808"; "a"]] = [FInt 1; PANIC].
+(** 84546fc (was F-06h) *)
+Lemma srandmember_min_fixed_history :
+  replies [["SADD"; "s"; "a"]; ["SRANDMEMBER"; "s"; "-9223372036854775808"]; ["SCARD"; "s"]]
+  = [FInt 1; r_err; FInt 1].
 Proof. vm_compute. reflexivity. Qed.
-Lemma srandmember_panics n o s : s <> [] -> n < 0 -> srand_neg_ok n = false ->
-  e_srandmember (Some n) o (Some (VSet s)) = (PANIC, Keep).
-Proof.
-  intros Hne Hn H. unfold e_srandmember. destruct s; [congruence|].
-  replace (0 <=? n)%Z with false by (symmetry; apply Z.leb_gt; lia).
-  unfold srand_neg_ok in H. replace (n <? 0)%Z with true in H by (symmetry; apply Z.ltb_lt; lia).
-  cbn [andb] in H. destruct (n =? i64_min)%Z; [reflexivity|]. cbn [negb andb] in H.
-  destruct (isize_max <? 24 * - n)%Z; [reflexivity | discriminate].
-Qed.
-Lemma srandmember_refuted_history :
-  replies [["SADD"; "s"; "a"]; ["SRANDMEMBER"; "s"; "-9223372036854775808"];
-           ["SRANDMEMBER"; "s"; "-384307168202282326"]] = [FInt 1; PANIC; PANIC].
-Proof. vm_compute. reflexivity. Qed.
-
-(** type checks skipped by the early returns of sinter / sdiff *)
-Lemma setalg_type_skipped_history :
+(** eab489c: every key is type-checked *)
+Lemma setalg_type_checked_history :
   replies [["SADD"; "s"; "a"]; ["LPUSH"; "str"; "x"]; ["SDIFF"; "nokey"; "str"]; ["SINTER"; "nokey"; "str"];
-           ["SINTER"; "s"; "nokey"; "str"]; ["SDIFF"; "s"; "str"]; ["SUNION"; "nokey"; "str"]]
-  = [FInt 1; FInt 1; FArray []; FArray []; FArray []; r_wrongtype; r_wrongtype].
+           ["SINTER"; "s"; "nokey"; "str"]; ["SDIFF"; "s"; "str"]; ["SUNION"; "nokey"; "str"];
+           ["SINTER"; "s"; "nokey"]; ["SDIFF"; "nokey"; "s"]; ["SDIFF"; "s"; "nokey"]]
+  = [FInt 1; FInt 1; r_wrongtype; r_wrongtype; r_wrongtype; r_wrongtype; r_wrongtype;
+     FArray []; FArray []; FArray [b "a"]].
 Proof. vm_compute. reflexivity. Qed.
 
 (** non-vacuity: a reachable database with all three collection types is well-formed and
